@@ -562,6 +562,38 @@ def r_sortshape(f):
             R.inst(b.ident, "s4 swap trace applied with swap_rows (%d call site)" % len(sr), okk)
             if not okk:
                 R.fail(b.ident, "s4:swap_rows", "%s does not apply the row swap trace with swap_rows: rows would not move whole" % b.ident, b.where())
+        # s4b: each transposition of the trace exchanges its own two positions: the operands of the swap are the `.0` and the `.1`
+        # of one trace entry (an entry applied as (a, a) moves nothing: the key line is sorted on the side, the array is not)
+        cand = [b] + b.closures()
+        for bi0, t0, fn0 in b.calls():
+            hb0 = f.crate_fn_for_call(fn0) if fn0 else None
+            if hb0 is not None and hb0.kind != "Closure" and hb0.id != b.id and not (hb0.trait_provided or hb0.impl_trait):
+                cand += [hb0] + hb0.closures()
+        for cb0 in cand:
+            dd0 = Dfx(cb0)
+            for bi0, t0, fn0 in cb0.calls():
+                if not fn0:
+                    continue
+                ops_ = None
+                if fn0["name"] == "swap_rows" and len(t0["args"]) == 3:
+                    ops_ = [strip(dd0.expr(t0["args"][1])), strip(dd0.expr(t0["args"][2]))]
+                elif fn0["path"] == "core::slice::<impl [T]>::swap" and len(t0["args"]) == 3:
+                    ops_ = [strip(dd0.expr(t0["args"][1])), strip(dd0.expr(t0["args"][2]))]
+                elif fn0["path"] == "core::ptr::swap" and len(t0["args"]) == 2:
+                    ops_ = []
+                    for a0_ in t0["args"]:
+                        e0_ = strip(dd0.expr(a0_))
+                        idx_ = [strip(x[3][1]) for x in walk(e0_) if x[0] == "call" and x[2] in ("get_unchecked_mut", "get_unchecked", "index_mut", "add") and len(x[3]) == 2]
+                        ops_.append(idx_[0] if len(idx_) == 1 else None)
+                if not ops_ or any(o is None for o in ops_):
+                    continue
+                if not all(o[0] == "field" and o[2] in (0, 1) for o in ops_):
+                    continue          # not the (a, b) components of a trace entry: another form, not judged here
+                n += 1
+                okp_ = {ops_[0][2], ops_[1][2]} == {0, 1} and show(strip(ops_[0][1])) == show(strip(ops_[1][1]))
+                R.inst(b.ident, "s4b each trace entry exchanges its own two positions: %s(%s, %s)" % (fn0["name"], show(ops_[0]), show(ops_[1])), okp_)
+                if not okp_:
+                    R.fail(b.ident, "s4b:%s(%s,%s)" % (fn0["name"], ".%d" % ops_[0][2], ".%d" % ops_[1][2]), "%s applies a trace entry as %s(%s, %s): the two operands are not the two positions of one transposition, so the permutation found by the side sort is not applied to the array" % (b.ident, fn0["name"], show(ops_[0]), show(ops_[1])), cb0.where(t0["span"]))
         # s5: every call into caller code precedes the first write to the array
         n += 1
         dom = b.dominators()
